@@ -405,13 +405,12 @@ non-trivial = payload non-empty and one of {>=2 deflate blocks, >=2 segments, a 
                 }
             }
             let want: &[u8] = if decoded { &payload } else { &body };
-            let ambiguous_empty = cut == Some(0);
             match consume(resp, &case.reads, &[3, 3], want.len()) {
                 Consumed::Hist(h) => {
                     if !want.starts_with(&h.delivered) {
                         return Outcome::fail(format!("C06:not-a-prefix:{cname}"), format!("delivered bytes are not a prefix of the expected body (cut {cut:?}, corrupt {corrupt}): {}", first_diff(&h.delivered, want)));
                     }
-                    if damaged && !ambiguous_empty {
+                    if damaged {
                         if h.err_at.is_none() {
                             return Outcome::fail(
                                 format!("C06:damage-not-reported:{cname}"),
@@ -433,7 +432,7 @@ non-trivial = payload non-empty and one of {>=2 deflate blocks, >=2 segments, a 
                 }
                 Consumed::Helper(r) => match r {
                     Ok(v) => {
-                        if damaged && !ambiguous_empty {
+                        if damaged {
                             return Outcome::fail(format!("C06:helper-ok-on-damage:{cname}"), format!("helper returned Ok({} bytes) for a damaged stream (cut {cut:?}, corrupt {corrupt})", v.len()));
                         }
                         if !damaged && v != want {
@@ -451,7 +450,7 @@ non-trivial = payload non-empty and one of {>=2 deflate blocks, >=2 segments, a 
                 },
                 Consumed::Text(r) => match r {
                     Ok(t) => {
-                        if damaged && !ambiguous_empty {
+                        if damaged {
                             return Outcome::fail(format!("C06:helper-ok-on-damage:{cname}"), "text_utf8 returned Ok for a damaged stream".to_string());
                         }
                         if !damaged && t != String::from_utf8_lossy(want) {
@@ -468,7 +467,7 @@ non-trivial = payload non-empty and one of {>=2 deflate blocks, >=2 segments, a 
                     if let Ok(wantv) = serde_json::from_slice::<serde_json::Value>(want) {
                         match r {
                             Ok(v) => {
-                                if damaged && !ambiguous_empty {
+                                if damaged {
                                     return Outcome::fail(format!("C06:helper-ok-on-damage:{cname}"), "json() returned Ok for a damaged stream".to_string());
                                 }
                                 if v != wantv {
